@@ -5,6 +5,9 @@
 (*   MC_ShellLex*.cfg  walk over the lexing alphabet: self-consistency of the shell model, and every string the      *)
 (*                     model calls inert is printed with its words - replayed on the real shells, this validates     *)
 (*                     the model itself                                                                               *)
+(*   MC_ShellEnv*.cfg  walk over the environment alphabet: every string is one environment ENTRY of `fzf --tmux`;    *)
+(*                     which entries the re-launch script exports and the theorem that sh evaluating the script      *)
+(*                     defines exactly those (FzfShell section 7); one case per entry for the real binary            *)
 (* Environment variable C12_FIRST (optional): walk only the strings that start with this symbol (sharding).          *)
 EXTENDS FzfShell, Json, IOUtils
 
@@ -67,6 +70,22 @@ InvOneWordPerItem   == ShEval(JoinWith(<<Quote(s), Quote(Reverse(s)), Quote(s \o
                          = Ok(<<s, Reverse(s), s \o s>>)
 (* the two POSIX quoting routines of the code base agree *)
 InvSameScheme       == Quote(s) = EscapeSingleQuote(s)
+
+(* ---- invariants: environment alphabet (MC_ShellEnv*.cfg): s is ONE ENTRY of the environment of fzf --tmux ---- *)
+(* letters, a digit, the underscore, "=", and what must never get into the script from a NAME: ; - . $ ( blank quote  *)
+EnvAlphabet == {"a", "1", "US", "EQ", "SEMI", "MINUS", "DOT", "DOL", "LP", "SP", "SQ"}
+ASSUME ScriptUnsafeByPrefix
+(* the entry alone, and among others (a good entry before and after it, itself twice over as a value) *)
+Good1 == <<"a", "1", "EQ", "SQ", "SP", "SEMI">>
+Good2 == <<"US", "x", "EQ">>
+InvScriptSafe == /\ ScriptSafe(<<s>>)
+                 /\ ScriptSafe(<<Good1, s, Good2, <<"q", "EQ">> \o s \o s>>)
+(* the value of an exported entry is re-quoted like an argument: whatever follows the first "=" reads back *)
+InvEnvValueReadsBack == Exported(s) => ScriptEval(TmuxExports(<<s>>)).vars = <<s>>
+(* nothing of an entry that is not exported reaches the script *)
+InvNotExportedIsAbsent == ~Exported(s) => TmuxExports(<<Good1, s, Good2>>) = TmuxExports(<<Good1, Good2>>)
+EmitEnv == PrintT(<<"CASE", ToJson([ent |-> Enc(s), exported |-> Exported(s), script |-> Enc(TmuxExports(<<s>>)),
+                                     vars |-> EncAll(ScriptEval(TmuxExports(<<s>>)).vars)])>>)
 
 (* ---- invariants: lexing alphabet (self-consistency of the shell model) ---- *)
 (* re-quoting the words the model reads gives a command line the model reads as the same words *)
